@@ -35,15 +35,22 @@ type recState struct {
 	created map[common.Address]struct{}
 }
 
-func (s *recState) t(a common.Address)                           { s.touched[a] = struct{}{} }
-func (s *recState) CreateAccount(a common.Address)               { s.t(a); s.created[a] = struct{}{}; s.StateDB.CreateAccount(a) }
-func (s *recState) SubBalance(a common.Address, v *big.Int)      { s.t(a); s.StateDB.SubBalance(a, v) }
-func (s *recState) AddBalance(a common.Address, v *big.Int)      { s.t(a); s.StateDB.AddBalance(a, v) }
-func (s *recState) SetNonce(a common.Address, n uint64)          { s.t(a); s.StateDB.SetNonce(a, n) }
-func (s *recState) SetCode(a common.Address, c []byte)           { s.t(a); s.StateDB.SetCode(a, c) }
-func (s *recState) Suicide(a common.Address) bool                { s.t(a); return s.StateDB.Suicide(a) }
-func (s *recState) SetState(a common.Address, k, v common.Hash)  { s.t(a); s.StateDB.SetState(a, k, v) }
-func (s *recState) AddAddressToAccessList(a common.Address)      { s.t(a); s.StateDB.AddAddressToAccessList(a) }
+func (s *recState) t(a common.Address) { s.touched[a] = struct{}{} }
+func (s *recState) CreateAccount(a common.Address) {
+	s.t(a)
+	s.created[a] = struct{}{}
+	s.StateDB.CreateAccount(a)
+}
+func (s *recState) SubBalance(a common.Address, v *big.Int)     { s.t(a); s.StateDB.SubBalance(a, v) }
+func (s *recState) AddBalance(a common.Address, v *big.Int)     { s.t(a); s.StateDB.AddBalance(a, v) }
+func (s *recState) SetNonce(a common.Address, n uint64)         { s.t(a); s.StateDB.SetNonce(a, n) }
+func (s *recState) SetCode(a common.Address, c []byte)          { s.t(a); s.StateDB.SetCode(a, c) }
+func (s *recState) Suicide(a common.Address) bool               { s.t(a); return s.StateDB.Suicide(a) }
+func (s *recState) SetState(a common.Address, k, v common.Hash) { s.t(a); s.StateDB.SetState(a, k, v) }
+func (s *recState) AddAddressToAccessList(a common.Address) {
+	s.t(a)
+	s.StateDB.AddAddressToAccessList(a)
+}
 
 var _ vm.StateDB = (*recState)(nil)
 
@@ -55,7 +62,7 @@ type RefEVM struct {
 	time      int64
 	coinbase  common.Address
 	txIdx     int
-	Contracts map[string]bool // every address that ever held code (hex, upper case)
+	Contracts map[string]bool          // every address that ever held code (hex, upper case)
 	Snaps     map[int64]*state.StateDB // reference state after each block (for vm_call at past heights)
 	Destroyed map[string]bool
 
@@ -116,16 +123,16 @@ func (r *RefEVM) blockCtx() vm.BlockContext {
 }
 
 type refResult struct {
-	OK      bool
-	ErrText string
-	Ret     []byte
-	GasUsed uint64
-	Logs    []*ethtypes.Log
-	Created string // deployed contract address
-	CreatedAll []string // every account that received code in this transaction
-	Touched []common.Address
-	Burn    *big.Int // value destroyed by self-destruct-to-self
-	UsedBlockHash bool // BLOCKHASH was executed
+	OK            bool
+	ErrText       string
+	Ret           []byte
+	GasUsed       uint64
+	Logs          []*ethtypes.Log
+	Created       string   // deployed contract address
+	CreatedAll    []string // every account that received code in this transaction
+	Touched       []common.Address
+	Burn          *big.Int // value destroyed by self-destruct-to-self
+	UsedBlockHash bool     // BLOCKHASH was executed
 }
 
 // syncIn overwrites balances and nonces of all model accounts.
